@@ -16,7 +16,8 @@
    its deciding factor, and how vacuity of a generator family becomes visible.                                      *)
 EXTENDS Integers, Sequences, FiniteSets, TLC
 
-CONSTANTS Els, XPairs, Fudges, NameTriples, ResnameTriples, MolTriples, ResidTriples, OldChoices, Modes
+CONSTANTS Els, XPairs, Fudges, NameTriples, ResnameTriples, MolTriples, ResidTriples, OldChoices, Modes,
+          SweepEls, SweepFudges
 
 SPEC == "spec"
 
@@ -187,7 +188,103 @@ Out(s, v) == LET O == OldE(s, v)
              IN [mols |-> MolsGiven(s, v, E), edges |-> E, dist |-> WithD2(s, N \cup D)]
 Sensitive(s) == LET o == Out(s, SPEC) IN {v \in Variants : Out(s, v) # o}
 
+(* ============================================= the same criteria, arranged for large systems ==
+   Out(s, SPEC) looks at every pair of atoms with every operator of the statement and is affordable up to a few dozen
+   atoms.  FastOut(s) is the SAME result for systems of thousands of atoms (real structures):
+     - residues are computed once (per-atom residue number rid = lowest atom of the residue),
+     - name bonds / non-bonds are predicates of a pair instead of sets,
+     - the distance rule is only evaluated for pairs whose coordinates differ by at most CMax in every direction;
+       CMax is at least the largest threshold any two elements of the table can have, so no pair is missed,
+     - components are found by breadth-first search on the residue graph.
+   FastIsDecl (TAB model: every 3-atom system) and the trace judge (every generated system of <= 14 atoms) check
+   FastOut(s) = Out(s, SPEC); nothing of the statement is restated here - Rule's conjuncts are re-used.            *)
+MaxRadius   == 216
+RadiusBound == \A e \in DOMAIN Radius : Radius[e] <= MaxRadius
+CMax(s)     == (s.fn * MaxRadius) \div s.fd + 1
+CloseBox(s, cm, i, j) == /\ Abs(At(s, i).x - At(s, j).x) <= cm
+                         /\ Abs(At(s, i).y - At(s, j).y) <= cm
+                         /\ Abs(At(s, i).z - At(s, j).z) <= cm
+CandPairs(s) == LET cm == CMax(s)
+                    n  == Len(s.atoms)
+                IN F(UNION {{<<i, j>> : j \in {j \in (i + 1)..n : CloseBox(s, cm, i, j)}} : i \in Idx(s)})
+BlockIdx(s, rn) == IF HasBlock(s, rn) THEN CHOOSE k \in DOMAIN s.blocks : s.blocks[k].resname = rn ELSE 0
+
+\* per-atom tables: rid = residue (its lowest atom), nb = the residue is bonded by names, fb = it is a fall-back
+\* residue, bi = index of its block (0 = none); res = the residues as sets of atoms
+Ctx(s) ==
+  LET rk   == F([i \in Idx(s) |-> ResKey(SPEC, At(s, i))])
+      Keys == F({rk[i] : i \in Idx(s)})
+      G    == F([k \in Keys |-> F({i \in Idx(s) : rk[i] = k})])
+      fst  == F([k \in Keys |-> MinOf(G[k])])
+      nbk  == F([k \in Keys |-> NameBased(s, SPEC, G[k])])
+      fbk  == F([k \in Keys |-> FallBack(s, SPEC, G[k])])
+  IN [rid |-> F([i \in Idx(s) |-> fst[rk[i]]]),
+      nb  |-> F([i \in Idx(s) |-> nbk[rk[i]]]),
+      fb  |-> F([i \in Idx(s) |-> fbk[rk[i]]]),
+      bi  |-> F([i \in Idx(s) |-> BlockIdx(s, At(s, i).resname)]),
+      res |-> F({G[k] : k \in Keys})]
+SameResC(c, i, j)     == c.rid[i] = c.rid[j]
+NameEdgeC(s, c, i, j) == /\ SameResC(c, i, j) /\ c.nb[i]
+                         /\ BEdge(s.blocks[c.bi[i]], At(s, i).name, At(s, j).name)
+NonEdgeC(s, c, i, j)  == /\ SameResC(c, i, j) /\ c.nb[i]
+                         /\ LET b  == s.blocks[c.bi[i]]
+                                n1 == At(s, i).name
+                                n2 == At(s, j).name
+                            IN n1 \in BNames(b) /\ n2 \in BNames(b) /\ n1 # n2 /\ ~BEdge(b, n1, n2)
+NoHAcrossC(s, c, p)   == SameResC(c, p[1], p[2]) \/ (At(s, p[1]).el # "H" /\ At(s, p[2]).el # "H")
+\* the six conjuncts, cheapest first; ne = FALSE inside the fall-back pass (the block's non-bonds do not apply there)
+RuleC(s, c, p, ne, B) == /\ CRadii(s, p) /\ CNotHH(s, p) /\ NoHAcrossC(s, c, p)
+                         /\ CWithin(s, SPEC, p)
+                         /\ ~(ne /\ NonEdgeC(s, c, p[1], p[2]))
+                         /\ CNotBonded(B, p)
+FailingC(s, c, p, B) == {x \in ConjNames : \/ x = "radii"   /\ ~CRadii(s, p)
+                                           \/ x = "within"  /\ ~CWithin(s, SPEC, p)
+                                           \/ x = "nonedge" /\ NonEdgeC(s, c, p[1], p[2])
+                                           \/ x = "hh"      /\ ~CNotHH(s, p)
+                                           \/ x = "hacross" /\ ~NoHAcrossC(s, c, p)
+                                           \/ x = "bonded"  /\ ~CNotBonded(B, p)}
+NameEdgesC(s, c) == F(UNION {{p \in PairsIn(R) : NameEdgeC(s, c, p[1], p[2])} : R \in {Q \in c.res : c.nb[MinOf(Q)]}})
+
+\* residue graph and its components by breadth-first search; residues are named by their lowest atom
+RECURSIVE Reach(_, _, _)
+Reach(V, Fr, A) == IF Fr = {} THEN V
+                   ELSE LET N == F({x[2] : x \in {y \in A : y[1] \in Fr}} \ V) IN Reach(F(V \cup N), N, A)
+RECURSIVE CompsFrom(_, _, _)
+CompsFrom(U, A, acc) == IF U = {} THEN acc
+                        ELSE LET cc == Reach({MinOf(U)}, {MinOf(U)}, A) IN CompsFrom(F(U \ cc), A, acc \cup {cc})
+MolsC(s, c, E) ==
+  LET A  == F(UNION {{<<c.rid[p[1]], c.rid[p[2]]>>, <<c.rid[p[2]], c.rid[p[1]]>>} : p \in {q \in E : c.rid[q[1]] # c.rid[q[2]]}})
+      RS == F({c.rid[i] : i \in Idx(s)})
+      CC == CompsFrom(RS, A, {})
+  IN F({F({i \in Idx(s) : c.rid[i] \in cc}) : cc \in CC})
+
+FastOutC(s, c) ==
+  LET O  == OldE(s, SPEC)
+      N  == NameEdgesC(s, c)
+      B0 == F(O \cup N)
+      D  == IF s.dist THEN F({p \in CandPairs(s) : RuleC(s, c, p, TRUE, B0)}) ELSE {}
+      E  == F(B0 \cup D)
+  IN [mols |-> MolsC(s, c, E), edges |-> E, dist |-> WithD2(s, N \cup D), named |-> N, guessed |-> D]
+FastOut(s) == LET o == FastOutC(s, Ctx(s)) IN [mols |-> o.mols, edges |-> o.edges, dist |-> o.dist]
+\* "numerically on a threshold", for large systems
+AnyNearC(s) == \E p \in CandPairs(s) : Near(s, p[1], p[2])
+
 (* ------------------------------------------------------------- well-formedness *)
+\* large systems: coordinates up to 100 nm (differences stay far below 2^31; squares are only taken of close pairs)
+WellFormedBig(s) ==
+  /\ Len(s.atoms) >= 1
+  /\ s.fn \in 1..20 /\ s.fd \in 1..20
+  /\ \A i \in Idx(s) : Abs(At(s, i).x) <= 100000 /\ Abs(At(s, i).y) <= 100000 /\ Abs(At(s, i).z) <= 100000
+  /\ \A k \in DOMAIN s.old : /\ s.old[k][1] \in Idx(s) /\ s.old[k][2] \in Idx(s) /\ s.old[k][1] # s.old[k][2]
+                             /\ At(s, s.old[k][1]).mol = At(s, s.old[k][2]).mol
+  /\ \A k \in DOMAIN s.blocks :
+        LET b == s.blocks[k] IN
+        /\ b.resname # "-" /\ Len(b.names) >= 1
+        /\ \A m \in DOMAIN s.blocks : m # k => s.blocks[m].resname # b.resname
+        /\ \A x, y \in DOMAIN b.names : x # y => b.names[x] # b.names[y]
+        /\ \A x \in DOMAIN b.names : b.names[x] # "-"
+        /\ \A e \in DOMAIN b.edges : b.edges[e][1] \in BNames(b) /\ b.edges[e][2] \in BNames(b) /\ b.edges[e][1] # b.edges[e][2]
+
 WellFormed(s) ==
   /\ Len(s.atoms) >= 1
   /\ s.fn \in 1..20 /\ s.fd \in 1..20
@@ -203,8 +300,15 @@ WellFormed(s) ==
         /\ \A e \in DOMAIN b.edges : b.edges[e][1] \in BNames(b) /\ b.edges[e][2] \in BNames(b) /\ b.edges[e][1] # b.edges[e][2]
 
 (* ================================================================= TAB model ==
-   every system of three atoms on a line: elements x positions x residue numbers x input molecules x residue names
-   x atom names x pre-existing bonds x modes x fudge.  State = (input, expected result, sensitive variants).        *)
+   three families of small systems on a line; State = (input, expected result, sensitive variants).
+   core  : every system of three atoms: elements x positions x residue numbers x input molecules x residue names
+           x atom names (incl. a middle atom the block does not know) x pre-existing bonds x modes x fudge;
+   sweep : two atoms of EVERY ordered pair of elements of SweepEls (the whole radius table and an element without
+           radius), at the largest lattice distance that is still within the threshold and one lattice step beyond it,
+           same residue / two residues, every fudge factor of SweepFudges (rationals below and above 1).  When the
+           threshold itself is a lattice point the inner position is ON the threshold: the statement says "within",
+           i.e. such a pair IS bonded (OnThresholdInside); out.near marks these states - the harness reports what the
+           implementation does with them but does not judge it (floating point decides).                           *)
 VARIABLES sys, out, sens
 vars == <<sys, out, sens>>
 PENDING == {"pending"}
@@ -215,18 +319,28 @@ Build(el, xp, rid, ml, rn, nm, od, mode, fu) ==
   [atoms |-> [k \in 1..3 |-> [mol |-> ml[k], chain |-> "A", resid |-> rid[k], icode |-> "", resname |-> rn[k],
                               name |-> nm[k], el |-> el[k], x |-> IF k = 1 THEN 0 ELSE xp[k - 1], y |-> 0, z |-> 0]],
    old |-> od, blocks |-> TabBlocks, name |-> mode[1], dist |-> mode[2], fn |-> fu[1], fd |-> fu[2]]
+\* largest multiple of 10 pm that is <= fudge * (r1 + r2) / 2
+XIn(e1, e2, fu) == ((fu[1] * (Rad(SPEC, e1) + Rad(SPEC, e2))) \div (20 * fu[2])) * 10
+Build2(e1, e2, step, two, fu) ==
+  [atoms |-> [k \in 1..2 |-> [mol |-> 0, chain |-> "A", resid |-> IF two /\ k = 2 THEN 2 ELSE 1, icode |-> "",
+                              resname |-> "U", name |-> IF k = 1 THEN "A" ELSE "B", el |-> IF k = 1 THEN e1 ELSE e2,
+                              x |-> IF k = 1 THEN 0 ELSE XIn(e1, e2, fu) + step, y |-> 0, z |-> 0]],
+   old |-> <<>>, blocks |-> TabBlocks, name |-> FALSE, dist |-> TRUE, fn |-> fu[1], fd |-> fu[2]]
 
-Init == \E el \in [1..3 -> Els], xp \in XPairs, rid \in ResidTriples, ml \in MolTriples, rn \in ResnameTriples,
-           nm \in NameTriples, od \in OldChoices, mode \in Modes, fu \in Fudges :
-          LET s == Build(el, xp, rid, ml, rn, nm, od, mode, fu) IN
-          /\ WellFormed(s)
-          /\ ~AnyNear(s)
-          /\ sys = s
-          /\ out = [mols |-> {}, edges |-> {}, dist |-> {}]
-          /\ sens = PENDING
+Start(s) == /\ WellFormed(s)
+            /\ sys = s
+            /\ out = [mols |-> {}, edges |-> {}, dist |-> {}, near |-> FALSE]
+            /\ sens = PENDING
+InitCore  == \E el \in [1..3 -> Els], xp \in XPairs, rid \in ResidTriples, ml \in MolTriples, rn \in ResnameTriples,
+                nm \in NameTriples, od \in OldChoices, mode \in Modes, fu \in Fudges :
+               LET s == Build(el, xp, rid, ml, rn, nm, od, mode, fu) IN ~AnyNear(s) /\ Start(s)
+InitSweep == \E e1 \in SweepEls, e2 \in SweepEls, step \in {0, 10}, two \in BOOLEAN, fu \in SweepFudges :
+               Start(Build2(e1, e2, step, two, fu))
+Init == InitCore \/ InitSweep
 \* the evaluation is a step so that TLC's workers share it
 Eval == /\ sens = PENDING
-        /\ out' = Out(sys, SPEC)
+        /\ LET o == Out(sys, SPEC) IN
+           out' = [mols |-> o.mols, edges |-> o.edges, dist |-> o.dist, near |-> AnyNear(sys)]
         /\ sens' = Sensitive(sys)
         /\ UNCHANGED sys
 Next == Eval
@@ -262,6 +376,13 @@ GuessedObeyCriteria_ ==   \* every bond that is neither old nor from a block sat
 NothingWithoutMode_ == (~sys.name /\ ~sys.dist) => out.edges = OldE(sys, SPEC)
 OpIsDecl_      == OpOut(sys).edges = out.edges /\ OpOut(sys).dist = out.dist
 DistOnlyOnNew_ == \A t \in out.dist : <<t[1], t[2]>> \in out.edges
+\* the arrangement for large systems is the same function
+FastIsDecl_    == LET f == FastOut(sys) IN f.mols = out.mols /\ f.edges = out.edges /\ f.dist = out.dist
+\* a pair EXACTLY on the threshold is within it: it is bonded when nothing else forbids it
+OnThreshold(s, p) == CRadii(s, p) /\ 4 * s.fd * s.fd * D2(s, p[1], p[2]) = s.fn * s.fn * Sq(RSum(s, SPEC, p[1], p[2]))
+OnThresholdInside_ == \A p \in Pairs(sys) :
+                        (sys.dist /\ OnThreshold(sys, p) /\ p \notin NonEdges(sys, SPEC) /\ CNotHH(sys, p)
+                         /\ CNoHAcross(sys, SPEC, p)) => p \in out.edges
 Partition == Done => Partition_
 ResiduesWhole == Done => ResiduesWhole_
 MolConnected == Done => MolConnected_
@@ -273,4 +394,7 @@ GuessedObeyCriteria == Done => GuessedObeyCriteria_
 NothingWithoutMode == Done => NothingWithoutMode_
 OpIsDecl == Done => OpIsDecl_
 DistOnlyOnNew == Done => DistOnlyOnNew_
+FastIsDecl == Done => FastIsDecl_
+OnThresholdInside == Done => OnThresholdInside_
+TableBounded == RadiusBound
 =============================================================================
